@@ -464,9 +464,17 @@ def checkRelEq (j : Json) : R Json := do
 -- ---------------------------------------------------------------- C05 / C07 / C19
 def locOp (j : Json) : R Json := do
   let text ← fStr j "text"
-  let final := text.toList.foldl (fun (st : Spec.LexSt × Bool × Nat) c => Spec.locStep st.1 st.2.1 st.2.2 c) (.code, false, 0)
-  let closed := final.1 == .code || final.1 == .lineComment || final.1 == .slash
+  -- lexically closed C text: comments / literals terminated, no raw newline inside a literal
+  let (final, nlInLit) := text.toList.foldl (fun (acc : (Spec.LexSt × Bool × Nat) × Bool) c =>
+      let st := acc.1
+      let inLit := st.1 == .str || st.1 == .chr || st.1 == .strEsc || st.1 == .chrEsc
+      (Spec.locStep st.1 st.2.1 st.2.2 c, acc.2 || (inLit && c == '\n'))) ((.code, false, 0), false)
+  let closed := (final.1 == .code || final.1 == .lineComment || final.1 == .slash) && !nlInLit
   pure (ok (Json.mkObj [("loc", jNat (Spec.loc text)), ("closed", Json.bool closed)]))
+
+def countLoopsOp (j : Json) : R Json := do
+  let ns ← (← fArr j "asts").mapM nodeOfJson
+  pure (ok (jNat ((ns.map fun n => (Spec.allLoops Spec.countedFor n).length).foldl (· + ·) 0)))
 
 def allLoopsOp (j : Json) : R Json := do
   let n ← nodeOfJson (← field j "ast")
@@ -514,6 +522,7 @@ def dispatch (op : String) (j : Json) : R Json :=
   | "model.rel_ops" => Ops.relOps j
   | "spec.loc" => Ops.locOp j
   | "spec.all_loops" => Ops.allLoopsOp j
+  | "spec.count_loops" => Ops.countLoopsOp j
   | "check.C05" => Ops.checkC05 j
   | "check.C10" => Ops.checkC10 j
   | "check.C10eq" => Ops.checkRelEq j
